@@ -111,6 +111,13 @@ def gen_program(rng, world, sites, faulty, tier="quick"):
         if kind in ("resolve", "resolving"):
             prog.append({"op": kind, "ref": rng.choice(refs), "body_raises": rng.random() < 0.3})
             continue
+        if rng.random() < 0.12:
+            # construction under the scheduler: the user builds a new validator object for the same schema in the
+            # middle of the program (library constructors run while the other threads work).  Registering a class
+            # at the same time is NOT generated: RefResolver() iterates the live registry, a registration on another
+            # thread at that moment raises "dictionary changed size during iteration" - thread-unsafe registration
+            # is a known hazard of the library that C18 (validators, not registrations) does not claim
+            prog.append({"op": "rebuild"})
         op = {"op": kind, "inst": rng.randrange(ninst)}
         if kind in ("take_close", "take_drop", "take_cycle", "consumer_raises"):
             op["k"] = rng.choice([1, 1, 2, 2, 3, 4])
@@ -125,7 +132,7 @@ def generate(rng, tier="quick"):
     base = W.gen_world(rng, ndefs=rng.randint(2, 7), ref_rate=rng.choice([0.4, 0.55, 0.7]),
                        nested_id_rate=rng.choice([0.15, 0.3, 0.5]), unresolvable_rate=rng.choice([0.0, 0.0, 0.05]),
                        ninstances=rng.randint(2, 4), inst_depth=rng.choice([3, 3, 4]),
-                       triggers=rng.random() < 0.6, formats=rng.random() < 0.55,
+                       triggers=rng.random() < 0.6, formats=rng.random() < 0.55, metaschema_refs=rng.random() < 0.4,
                        regex_boost=rng.random() < 0.7)
     worlds = [base]
     windex = [0]
@@ -212,7 +219,10 @@ def generate(rng, tier="quick"):
                            rng.choice([t for t in range(n) if t != th2]), rng.random() < 0.5])
             more.append({"mode": "preempt", "fractions": [], "first": th, "quantum": 0, "site_fractions": sp})
     return {"property": PROPERTY, "worlds": worlds, "actors": actors, "schedule": schedule,
-            "more_schedules": more, "requests": rng.random() < 0.3, "share_instances": rng.random() < 0.2}
+            "more_schedules": more, "requests": rng.random() < 0.3, "share_instances": rng.random() < 0.2,
+            "warnings_are_errors": rng.random() < 0.1,
+            # nobody shares a root or hands over a store: each thread may then build its own validator itself
+            "late_construct": bool(not shared and all(a["store_from"] is None for a in actors) and rng.random() < 0.35)}
 
 
 # --------------------------------------------------------------------------- execution (children)
@@ -270,9 +280,15 @@ class Stepper(object):
         from dsim.sim import IterTask, do_op
         from dsim.canon import fast
         a = self.actor
+        a.activate()
+        if not a.constructed:
+            # late construction: this actor's resolver and validator are built by its own thread, as the first
+            # micro-step of its program - under the scheduler like everything else
+            a.finish_construction()
+            a.probe("constructed_under_scheduler")
+            return "construct"
         op = self.program[self.pc]
         kind = op["op"]
-        a.activate()
         if self.task is None:
             if a.pending_cycle:
                 guarded_collect()
@@ -330,7 +346,8 @@ def build_actors(scn, router):
         src = actors[j] if (j is not None and j < i) else None
         sj = spec.get("store_from")
         donor = actors[sj] if (sj is not None and sj < i and src is None) else None
-        actors.append(Actor(world, spec["cfg"], router, shared_from=src, store_from=donor))
+        actors.append(Actor(world, spec["cfg"], router, shared_from=src, store_from=donor,
+                            defer=bool(scn.get("late_construct"))))
     return actors
 
 
@@ -523,6 +540,9 @@ def exec_alone(arg):
     scn, i = arg["scn"], arg["actor"]
     from dsim.transport import Router
     router = Router().install(scn.get("requests", False))
+    if scn.get("warnings_are_errors"):
+        import warnings
+        warnings.simplefilter("error")      # python -W error: a warning issued by the library is an exception there
     one = copy.deepcopy(scn)
     spec = one["actors"][i]
     spec["share_root_with"] = None
@@ -555,6 +575,9 @@ def exec_inter(scn):
     import gc
     from dsim.transport import Router
     router = Router().install(scn.get("requests", False))
+    if scn.get("warnings_are_errors"):
+        import warnings
+        warnings.simplefilter("error")      # python -W error: a warning issued by the library is an exception there
     actors = build_actors(scn, router)
     instances = scn["worlds"][0]["instances"]
     steppers = [Stepper(a, scn["actors"][i]["program"], instances, scn.get("share_instances", False))
